@@ -68,9 +68,9 @@ def generate(rng, tier):
             for j in range(4):
                 x = pe_lo + 0x1010 + 8 * j
                 regs = s.regs_x86(x, 0x7000, 0x7100)
-                l1 = s.add("unwind R CP ip %s %s S" % (hx(x), regs), tag="x86:repeat-pe-notext:first")
+                l1 = s.add("unwind R CP ip %s %s S" % (hx(x), regs), tag="x86:pe:repeat-notext:first")
                 s.meta[l1] = {"x": x, "cacheable": True}
-                l2 = s.add("unwind R CP ip %s %s S" % (hx(x), regs), tag="x86:repeat-pe-notext:second")
+                l2 = s.add("unwind R CP ip %s %s S" % (hx(x), regs), tag="x86:pe:repeat-notext:second")
                 s.meta[l2] = {"must_hit": True, "prev": l1, "x": x, "cacheable": True}
         s.add("stats CR"); s.add("stats CW"); s.add("stats C0")
         out.append((name, s))
